@@ -161,51 +161,54 @@ def string_lemmas(formulas):
     return lemmas
 
 
+LAST_UNKNOWN = []
+
+
 def discharge(ob, timeout_ms, seed=0, fallbacks=True):
     """-> (status, solver, ms, model|None) ; status in discharged|sat|unknown"""
     t0 = time.time()
-    s = z3.Solver()
-    s.set("timeout", timeout_ms)
-    if seed:
-        s.set("random_seed", seed % (2 ** 31))
-    for a in ob.assumptions:
-        s.add(a)
-    s.add(z3.Not(ob.goal))
+    del LAST_UNKNOWN[:]
+    # valid facts of the theory of strings are added up front: with them the contradiction of an infeasible path is found by propagation, without
+    # z3's sequence solver (whose running time on one and the same query varies by orders of magnitude) -- adding tautologies changes no verdict
     try:
-        r = s.check()
-    except z3.Z3Exception:
-        r = z3.unknown
-    ms = int((time.time() - t0) * 1000)
-    if r == z3.unsat:
-        return "discharged", "z3-5.1(api)", ms, None
-    if r == z3.sat:
-        return "sat", "z3-5.1(api)", ms, s.model()
-    if r == z3.unknown:
+        lem = string_lemmas(list(ob.assumptions) + [ob.goal])
+    except Exception:  # noqa: BLE001
+        lem = []
+    label = "z3-5.1(api)+string-lemmas" if lem else "z3-5.1(api)"
+    # a small portfolio over random seeds: the running time of z3's sequence solver on one query varies from milliseconds to minutes with the seed
+    # (measured: 0.04 s with one seed, > 8 s with another), so an `unknown` of the first attempt is retried with other seeds before any fall-back
+    # The lemmas speed up refutations of infeasible paths and slow down model finding: the attempts alternate.
+    plan = [(seed, timeout_ms, False)] + ([(seed, timeout_ms, True)] if lem else [])
+    if fallbacks:
+        plan += [(7919, timeout_ms // 2, False), (104729, timeout_ms // 2, bool(lem)), (1299709, timeout_ms // 2, False)]
+    for sd, tmo, with_lem in plan:
+        label = "z3-5.1(api)+string-lemmas" if with_lem else "z3-5.1(api)"
+        s = z3.Solver()
+        s.set("timeout", max(500, tmo))
+        if sd:
+            s.set("random_seed", sd % (2 ** 31))
+        for a in ob.assumptions:
+            s.add(a)
+        for l in (lem if with_lem else ()):
+            s.add(l)
+        s.add(z3.Not(ob.goal))
+        t1 = time.time()
         try:
-            lem = string_lemmas(list(ob.assumptions) + [ob.goal])
-        except Exception:  # noqa: BLE001
-            lem = []
-        if lem:
-            s2 = z3.Solver()
-            s2.set("timeout", timeout_ms)
-            for a in ob.assumptions:
-                s2.add(a)
-            for l in lem:
-                s2.add(l)
-            s2.add(z3.Not(ob.goal))
-            try:
-                r2_ = s2.check()
-            except z3.Z3Exception:
-                r2_ = z3.unknown
-            ms = int((time.time() - t0) * 1000)
-            if r2_ == z3.unsat:
-                return "discharged", "z3-5.1(api)+string-lemmas", ms, None
-            if r2_ == z3.sat:
-                return "sat", "z3-5.1(api)+string-lemmas", ms, s2.model()
+            r = s.check()
+            why = s.reason_unknown() if r == z3.unknown else ""
+        except z3.Z3Exception as e:
+            r = z3.unknown
+            why = f"Z3Exception: {e}"
+        ms = int((time.time() - t0) * 1000)
+        if r == z3.unsat:
+            return "discharged", label, ms, None
+        if r == z3.sat:
+            return "sat", label, ms, s.model()
+        LAST_UNKNOWN.append(f"seed={sd} timeout={tmo}ms lemmas={with_lem}: {why} after {time.time() - t1:.1f}s")
     if not fallbacks:
         return "unknown", "z3-5.1(api)", ms, None
     # fall back to CLIs
-    text = _smt2(ob.assumptions, ob.goal)
+    text = _smt2(list(ob.assumptions) + list(lem), ob.goal)
     tsec = max(1, timeout_ms // 1000)
     r2 = _cli(["/usr/bin/cvc5", "--strings-exp", f"--tlimit={timeout_ms}"], text, tsec)
     ms = int((time.time() - t0) * 1000)
@@ -215,6 +218,7 @@ def discharge(ob, timeout_ms, seed=0, fallbacks=True):
     ms = int((time.time() - t0) * 1000)
     if r3 == "unsat":
         return "discharged", "z3-4.8.12(cli)", ms, None
+    LAST_UNKNOWN.append(f"cvc5: {r2}; z3-4.8.12: {r3}")
     if r2 == "sat" or r3 == "sat":
         return "sat-nomodel", "cvc5" if r2 == "sat" else "z3-4.8.12", ms, None
     return "unknown", "all", ms, None
@@ -298,7 +302,26 @@ def _run_contract(args):
                 nob += 1
                 trouble = failing.get(ob.name, 0)
                 st, solver, ms, model = discharge(ob, timeout_ms if trouble < 3 else min(timeout_ms, 2000), seed, fallbacks=trouble < 3)
-                if st != "discharged":
+                if st == "unknown" and trouble >= 3:
+                    # the short budget is for obligations that keep being refuted; an undecided one gets the full treatment after all
+                    st, solver, ms2, model = discharge(ob, timeout_ms, seed, fallbacks=True)
+                    ms += ms2
+                if st == "unknown":
+                    # verdicts must not flip with machine load or solver luck: one more attempt with four times the budget and another seed
+                    st_b, solver_b, ms_b, model_b = discharge(ob, timeout_ms * 4, seed + 7919, fallbacks=True)
+                    ms += ms_b
+                    if st_b != "unknown":
+                        st, solver, model = st_b, solver_b + "(retry)", model_b
+                if st == "unknown":
+                    try:     # keep the query: an undecided obligation must be reproducible outside the run
+                        d_ = OUTROOT / "out" / prop / "unknown"
+                        d_.mkdir(parents=True, exist_ok=True)
+                        (d_ / f"{cname}.{ob.name}.p{P.path_id}.smt2".replace("/", "_")).write_text(
+                            "".join(f"; {w}\n" for w in LAST_UNKNOWN) + _smt2(ob.assumptions, ob.goal))
+                    except Exception:  # noqa: BLE001
+                        pass
+                if st in ("sat", "sat-nomodel"):
+                    # repeated refutations of one obligation (a broken function fails it on many paths) get a short budget; an `unknown` never does
                     failing[ob.name] = trouble + 1
                 if st in ("unknown", "sat-nomodel") and trouble < 3:
                     # bounded counter-model search (small sequence lengths): a model found here is a genuine counterexample
